@@ -2228,6 +2228,9 @@ func (vm *Thread) callNativeMethod(method *NativeMethod, argCount int) (err valu
 // set up the vm to execute a bytecode method with tail call optimisation
 func (vm *Thread) callBytecodeFunctionTCO(method *BytecodeFunction, argCount int) {
 	vm.populateMissingParametersOnStack(method.parameterCount, argCount)
+	// the frame is about to be reused: variables of the current function that
+	// have been captured by closures move to the heap, as they do on return
+	vm.opCloseUpvalues(vm.fp)
 
 	localCount := method.parameterCount + 1
 	for i := range localCount {
